@@ -83,7 +83,7 @@ func floatRat(flt float64) (result slip.Object) {
 				if neg {
 					flt = -flt
 				}
-				return (*slip.Ratio)(big.NewRat(int64(flt), den))
+				return ratReduce(big.NewRat(int64(flt), den))
 			}
 			flt *= 10.0
 		}
